@@ -1065,6 +1065,15 @@ func NewReader(f io.ReaderAt, size int64, fd storage.FileDesc, cache *cache.Name
 		return r, nil
 	}
 
+	// The footer carries no checksum: make sure that both blocks lie within
+	// the file before buffers of their claimed length are allocated.
+	for _, bh := range []blockHandle{r.metaBH, r.indexBH} {
+		if bh.offset > uint64(footerPos) || bh.length > uint64(footerPos)-bh.offset {
+			r.err = r.newErrCorrupted(footerPos, footerLen, "table-footer", "block handle out of range")
+			return r, nil
+		}
+	}
+
 	// Read metaindex block. It only tells where the filter block is: like a
 	// damaged filter block, a damaged metaindex block costs the filter, not
 	// the table.
